@@ -346,6 +346,12 @@ func c10PointerFor(r *rand.Rand, doc any) []string {
 			ks := sortedKeys(x)
 			if len(ks) > 0 && r.Intn(6) != 0 {
 				k := ks[r.Intn(len(ks))]
+				if l, isList := x[k].([]any); isList && r.Intn(4) == 0 {
+					// a reference token names a member as it is spelled: "k[0]" is a member called k[0] (absent here), not item 0 of k
+					toks = append(toks, k+"["+strconv.Itoa(r.Intn(len(l)+2))+"]")
+					cur = nil
+					break
+				}
 				if sub, ok := x[k].(map[string]any); ok && len(sub) > 0 && r.Intn(5) == 0 {
 					// the dotted spelling of a nested member is a member name of its own (usually absent)
 					k = k + "." + sortedKeys(sub)[r.Intn(len(sub))]
